@@ -30,7 +30,6 @@ package udp
 // length must be representable in the 16-bit field.
 //@ func sendUDP props C06 C11
 //@   requires r != nil && 0 <= data.size && data.size <= 0xffff - header.UDPMinimumSize
-//@   requires forall(k, 0, len(data.views), len(data.views[k]) <= 65536)
 //@   loop 1 invariant -1 <= rangeindex && rangeindex < len(data.views)
 //@   modifies everything()
 
